@@ -131,41 +131,57 @@ def short(rec):
     return t if len(t) <= 300 else t[:140] + "...(%d bytes)..." % len(t) + t[-100:]
 
 
+def selftest_target(rec):
+    """Index of an entry fit for every corruption below (two judged keys, getter results, lines), or None."""
+    if any(l["t"] in ("key", "nokey", "hos", "hcomment") for l in rec["lines"]) or len(rec["text"]) > 2000:
+        return None
+    for n, e in enumerate(rec["q"]):
+        if len(e["keys"]) >= 2 and e["g"] and e["g"][0][0] in ("k1", "k2") and e["lines"] and "=" in rec["text"]:
+            return n
+    return None
+
+
 def selftest(ctx, accepted_doc, fuzz_line):
     """Corrupt recorded observations; the oracle must flag exactly the corrupted records."""
     base = json.loads(accepted_doc)
+    n = selftest_target(base)
     cases = [("original", base, "")]
-    # one getter result
-    c1 = json.loads(accepted_doc)
-    e = next(e for e in c1["q"] if e["g"])
-    e["g"][0][1][2] = "41"          # GetInt
-    cases.append(("getter-result", c1, "wrong-result:GetInt"))
-    c2 = json.loads(accepted_doc)
-    e = next(e for e in c2["q"] if e["g"])
-    e["g"][0][1][0] += "x"          # GetString
-    cases.append(("string-result", c2, "wrong-result:GetString"))
-    # one listing
-    c3 = json.loads(accepted_doc)
-    e = next(e for e in c3["q"] if e["lines"])
-    e["lines"] = e["lines"][:-1]
-    cases.append(("line-listing", c3, "wrong-result:GetDomainLine"))
-    c4 = json.loads(accepted_doc)
-    e = next(e for e in c4["q"] if e["keys"])
-    e["keys"] = e["keys"][1:]
-    cases.append(("key-listing", c4, "wrong-result:GetDomainKey"))
-    # the outcome class
-    c5 = json.loads(accepted_doc)
-    c5["class"], c5["q"] = "err", []
-    cases.append(("class-ok-to-err", c5, "spurious-error:wellformed-document"))
-    # the document itself (text no longer the rendering of the lines): must be refused as a harness fault
-    c6 = json.loads(accepted_doc)
-    c6["text"] = c6["text"].replace("=", " =", 1) + " "
-    cases.append(("text-not-rendering", c6, "harness:record-not-sane"))
-    f0 = json.loads(fuzz_line)
-    cases.append(("fuzz-original", f0, ""))
-    f1 = dict(f0)
-    f1["class"] = "panic"
-    cases.append(("fuzz-class-panic", f1, "panic:arbitrary-bytes"))
+
+    def variant(name, want, f):
+        c = json.loads(accepted_doc)
+        f(c, c["q"][n])
+        cases.append((name, c, want))
+
+    def set_int(c, e):
+        e["g"][0][1][2] = "41"            # GetInt
+
+    def set_str(c, e):
+        e["g"][0][1][0] += "x"            # GetString
+
+    def drop_line(c, e):
+        e["lines"] = e["lines"][:-1]
+
+    def drop_key(c, e):
+        e["keys"] = e["keys"][1:]
+
+    def flip_class(c, e):
+        c["class"], c["q"] = "err", []
+
+    def other_text(c, e):                 # the text is no longer the rendering of the lines
+        c["text"] = c["text"].replace("=", " =", 1) + " "
+
+    variant("getter-result", "wrong-result:GetInt", set_int)
+    variant("string-result", "wrong-result:GetString", set_str)
+    variant("line-listing", "wrong-result:GetDomainLine", drop_line)
+    variant("key-listing", "wrong-result:GetDomainKey", drop_key)
+    variant("class-ok-to-err", "spurious-error:wellformed-document", flip_class)
+    variant("text-not-rendering", "harness:record-not-sane", other_text)
+    if fuzz_line is not None:
+        f0 = json.loads(fuzz_line)
+        cases.append(("fuzz-original", f0, ""))
+        f1 = dict(f0)
+        f1["class"] = "panic"
+        cases.append(("fuzz-class-panic", f1, "panic:arbitrary-bytes"))
     vs, _ = oracle(ctx, [json.dumps(c[1]) + "\n" for c in cases], "selftest")
     out = {}
     for (nm, _, want), v in zip(cases, vs):
@@ -321,7 +337,7 @@ def run(ctx):
                         nontrivial.add(i)
                     if v["sig"] == "" and v["cls"] == "wellformed" and accepted_doc is None:
                         rec = json.loads(rec_lines[i])
-                        if any(e["g"] and e["lines"] and len(e["keys"]) > 1 for e in rec["q"]) and len(rec["text"]) < 2000:
+                        if selftest_target(rec) is not None:
                             accepted_doc = rec_lines[i]
                             samples.append({"kind": "accepted record", "text": rec["text"], "api": rec["api"],
                                             "class": rec["class"], "observed": rec["q"], "verdict": v})
@@ -347,7 +363,7 @@ def run(ctx):
     # ---- 5. binding self-test: corrupted records must be rejected, and only those
     st = None
     if accepted_doc is not None:
-        st = selftest(ctx, accepted_doc, fuzz_lines[0])
+        st = selftest(ctx, accepted_doc, next((l for l in fuzz_lines if '"class":"panic"' not in l), None))
 
     # ---- 6. the model-only results
     mc = {}
@@ -377,7 +393,7 @@ def run(ctx):
                           "TypedOK", "FaultFrozen"],
         "corpus": corpus,
         "documents_run": len(rec_lines),
-        "documents_by_reference_class_and_outcome": tally,
+        "records_by_reference_class_and_outcome": tally,
         "documents_by_shard": per_origin,
         "documents_fully_compared": judged_full,
         "getter_paths_per_document": "every sequence over the document's domain names up to its number of opens (<= 4), "
